@@ -13,6 +13,7 @@ import TlsModel.Suites
     get getter vmaj vmin macs ciphers kexs            -> suites      (CipherSuite.get*Suites)
     ffc alg|None suites                               -> suites      (filter_for_certificate)
     cguard vmaj vmin s offered                        -> 1|0         (client's ServerHello suite guard)
+    resok vmaj vmin s macs ciphers kexs               -> 1|0         (server's resumption suite check)
     ccn s / cmn s                -> canonical cipher / MAC name | None
     ckex s                       -> class expectsCertificate expectsSKE checksChain   (generated client chain/conditions)
     ske s                        -> kind|AssertionError signed
@@ -84,6 +85,9 @@ def handle : List String → Option String
   | ["cguard", a, b, s, l] => do
     let l ← parseNats l
     some (boolStr (clientAcceptsSuite l (← a.toNat?, ← b.toNat?) (← s.toNat?)))
+  | ["resok", a, b, s, m, c, k] => do
+    some (boolStr (resumeSuiteOk (parseNames MName.all MName.str m) (parseNames CName.all CName.str c)
+      (parseNames KName.all KName.str k) (← a.toNat?, ← b.toNat?) (← s.toNat?)))
   | ["ffc", alg, l] => do
     let l ← parseNats l
     let alg ← if alg == "None" then some none else (ofStr CertAlg.all CertAlg.str alg).map some
